@@ -3,8 +3,8 @@
 # Runs every seeded change (or the named ones) against the quick check of its property WITHOUT touching
 # /repo or /verif/evidence: a scratch worktree of /repo (VERIF_REPO) and a scratch copy of /verif are used
 # and removed afterwards. Result lines go to stdout: "<seed> <property> caught|MISSED|noapply  <detail>".
-WT=/tmp/wt_seedall
-VC=/tmp/verif_seedall
+WT=/tmp/wt_seedall${SEEDALL_TAG}
+VC=/tmp/verif_seedall${SEEDALL_TAG}
 git -C /repo worktree remove --force $WT 2>/dev/null
 rm -rf $VC
 git -C /repo worktree add -q $WT HEAD || exit 2
@@ -19,12 +19,12 @@ for id in $ids; do
   [ -z "$prop" ] && prop=${id%%_*}
   if ! git -C $WT apply --check $d/patch.diff 2>/dev/null; then echo "$id $prop noapply"; continue; fi
   git -C $WT apply $d/patch.diff
-  VERIF_REPO=$WT $VC/check $prop quick > /tmp/seedall.out 2>&1; rc=$?
+  VERIF_REPO=$WT $VC/check $prop quick > /tmp/seedall${SEEDALL_TAG}.out 2>&1; rc=$?
   git -C $WT checkout -q -- .
-  if [ $rc -eq 1 ] && grep -q "^VIOLATION property=$prop" /tmp/seedall.out; then
-    echo "$id $prop caught  $(grep -m1 '^  what:' /tmp/seedall.out | cut -c1-160)"
+  if [ $rc -eq 1 ] && grep -q "^VIOLATION property=$prop" /tmp/seedall${SEEDALL_TAG}.out; then
+    echo "$id $prop caught  $(grep -m1 '^  what:' /tmp/seedall${SEEDALL_TAG}.out | cut -c1-160)"
   else
-    echo "$id $prop MISSED rc=$rc $(grep -E '^(UNCONFIRMED|INCONCLUSIVE)' /tmp/seedall.out | head -2 | cut -c1-200)"
+    echo "$id $prop MISSED rc=$rc $(grep -E '^(UNCONFIRMED|INCONCLUSIVE)' /tmp/seedall${SEEDALL_TAG}.out | head -2 | cut -c1-200)"
   fi
 done
 git -C /repo worktree remove --force $WT
